@@ -3,7 +3,7 @@
    file handle by Close *)
 From Coq Require Import List Arith Bool Lia.
 From RW Require Import Conc.Sys Conc.SysFacts Conc.Close Conc.ListX Conc.CloseInv Conc.CloseInv2 Conc.CloseFacts
-     Conc.CloseK Conc.CloseSafe Conc.CloseReach Conc.CloseThm Conc.CloseStep2 Conc.CloseStep3 Conc.CloseOpen
+     Conc.CloseK Conc.CloseSafe Conc.CloseSafeStep Conc.CloseStep1 Conc.CloseReach Conc.CloseThm Conc.CloseStep2 Conc.CloseStep3 Conc.CloseOpen
      Conc.CloseReach2.
 Import ListNotations.
 
@@ -107,4 +107,53 @@ Proof.
       unfold fin_cnt. destruct (s_fin st0); try reflexivity. discriminate. }
     lia.
   - rewrite (i_meta _ _ _ I), K10. reflexivity.
+Qed.
+
+(* ---- C06: no read ever goes through a closed file handle ------------------------------------- *)
+Lemma rot_outs_step g t th g' th' :
+  pc_ok th = true -> t_rot th = true -> step_thread g t th = Some (g', th') -> t_pc th' <> PPanic ->
+  t_outs th' = t_outs th /\ t_rot th' = true.
+Proof.
+  intros WF Rt F NP. unfold pc_ok in WF. rewrite Rt in WF. destruct (t_prog th) eqn:Pq; [|discriminate].
+  unfold step_thread in F. crack F; try (destruct (pm3_tx _ _ _ _) eqn:?); inversion F; subst g' th'; clear F.
+  all: try (exfalso; apply NP; reflexivity).
+  all: try (split; [reflexivity | exact Rt]).
+  all: try discriminate WF.
+  all: match goal with |- context [continue _ _ ?k0] => destruct k0; try discriminate WF end.
+  all: split; [reflexivity | exact Rt].
+Qed.
+
+Lemma rot_outs_nil w progs extra s :
+  single_writer w progs extra -> reach progs extra s ->
+  forall t th, nth_error (ths s) t = Some th -> t_rot th = true -> t_outs th = [].
+Proof.
+  intros SW R.
+  assert (G : Full w (length progs) s /\ forall t th, nth_error (ths s) t = Some th -> t_rot th = true -> t_outs th = []).
+  { apply (reachable_inv sys step (fun s1 => Full w (length progs) s1 /\
+             forall t th, nth_error (ths s1) t = Some th -> t_rot th = true -> t_outs th = []) (init progs extra)); [| |exact R].
+    - split; [split; [apply safe_init | now apply inv1_init]|].
+      intros t th E _. destruct (init_threads _ _ _ _ E) as [(p & _ & -> & _)|(_ & ->)]; reflexivity.
+    - intros s1 u s2 [F1 IH] H. split; [eapply full_step; eauto|].
+      destruct F1 as [SA I]. destruct (step_decomp _ _ _ H) as (thu & g' & thu' & Eu & F & ->). cbn [ths].
+      intros t th E Rt. destruct (nth_error_upd_inv _ _ _ _ _ E) as [(-> & -> & _)|(Nu & E')]; [|eauto].
+      pose proof (CloseStep1.no_panic w (length progs) _ _ _ _ _ SA I Eu F) as NP.
+      destruct (Bool.bool_dec (t_rot thu) true) as [Ru|Ru].
+      + destruct (rot_outs_step _ _ _ _ _ (i_wf _ _ _ I _ _ Eu) Ru F NP) as [Qo _]. rewrite Qo. eauto.
+      + exfalso. apply not_true_is_false in Ru.
+        unfold step_thread in F. crack F; try (destruct (pm3_tx _ _ _ _) eqn:?); inversion F; subst;
+          try (match goal with H : context [continue _ _ ?k0] |- _ => destruct k0 end); cbn in Rt; congruence. }
+  exact (proj2 G).
+Qed.
+
+Theorem stable_entry_intact : forall w progs extra sch t th,
+  single_writer w progs extra ->
+  nth_error (ths (run step (init progs extra) sch)) t = Some th -> ~ In IOErr (t_outs th).
+Proof.
+  intros w progs extra sch t th SW E Hi.
+  assert (R : reach progs extra (run step (init progs extra) sch)) by (exists sch; reflexivity).
+  destruct (Nat.eq_dec t (length progs)) as [->|N].
+  - destruct (full_reach w progs extra _ SW R) as [_ I]. destruct (i_rot _ _ _ I) as (thr & Er & Rr).
+    assert (thr = th) by congruence. subst thr.
+    rewrite (rot_outs_nil w progs extra _ SW R _ _ E Rr) in Hi. destruct Hi.
+  - destruct (outcomes_clean w progs extra _ SW R t th IOErr E N Hi) as (_ & Q & _). now apply Q.
 Qed.
